@@ -57,14 +57,22 @@ CollisionFree(e) == \A c, d \in DOMAIN e.latest : (c # d /\ T.base[c] # T.base[d
 \* cluster is serving exactly the names of an EARLIER version of itself (e.vers[c]: the name sets of all versions ever submitted under its name, earlier incarnations included); only the
 \* names such a cluster serves or should serve are excused
 Served(e, c) == {T.base[h] : h \in {x \in DOMAIN e.resolve : e.resolve[x] = T.base[c]}}
-StaleServing(e, c) == Present(e, c) /\ Served(e, c) # Claims(e, c) /\ \E k \in DOMAIN e.vers[c] : Rng(e.vers[c][k]) = Served(e, c)
+\* (... or the same names with the TLS material of that earlier version: e.verstls[c][k])
+CertOf(e, c) == e.tls[CHOOSE h \in DOMAIN e.tls : T.base[h] = T.base[c]].cert
+StaleServing(e, c) == /\ Present(e, c)
+                      /\ \E k \in DOMAIN e.vers[c] :
+                            /\ Rng(e.vers[c][k]) = Served(e, c)
+                            /\ \/ Served(e, c) # Claims(e, c)
+                               \/ /\ e.verstls[c][k] # e.latest[c].tls
+                                  /\ CertOf(e, c) = (IF e.verstls[c][k] = "none" THEN "" ELSE T.base[c] \o "-" \o e.verstls[c][k])
 StaleHosts(e) ==
   IF "StaleRequeue" \notin Deviations THEN {}
   ELSE LET SC == {c \in DOMAIN e.latest : StaleServing(e, c)}                                   \* (evaluated once per observation)
            held == UNION {Served(e, c) : c \in SC}
            \* the clusters excused: those serving a stale version, and those refused because they claim a name held by a stale version
            ex == {T.base[c] : c \in SC} \cup {T.base[d] : d \in {x \in DOMAIN e.latest : Claims(e, x) \cap held # {}}}
-       IN IF SC = {} THEN {} ELSE {h \in DOMAIN e.resolve \cup DOMAIN e.tls : T.base[h] \in held \/ Owner(e, h) \in ex}
+       owed == UNION {Claims(e, d) : d \in {x \in DOMAIN e.latest : T.base[x] \in ex}}            \* (a name may have several claimants: any excused one counts)
+       IN IF SC = {} THEN {} ELSE {h \in DOMAIN e.resolve \cup DOMAIN e.tls : T.base[h] \in held \/ T.base[h] \in owed}
 CollideOK(i) ==
   LET e == T.events[i]
       SH == StaleHosts(e) IN
